@@ -47,7 +47,10 @@ struct task {
     task get_return_object() { return task{std::coroutine_handle<promise_type>::from_promise(*this)}; }
     auto initial_suspend() noexcept { struct A { bool r; bool await_ready() const noexcept { return r; } void await_suspend(std::coroutine_handle<>) const noexcept {} void await_resume() const noexcept {} }; return A{!Lazy}; }
     std::suspend_always final_suspend() noexcept { return {}; }
-    std::suspend_always yield_value(T v) { yields.push_back(v); return {}; }
+    // the eager type has one yield_value, the lazy type an overload pair as std::generator and cppcoro::generator have
+    std::suspend_always yield_value(T v) requires (!Lazy) { yields.push_back(v); return {}; }
+    std::suspend_always yield_value(const T& v) requires Lazy { yields.push_back(v); return {}; }
+    std::suspend_always yield_value(T&& v) requires Lazy { yields.push_back(std::move(v)); return {}; }
     void return_value(T v) { value = v; }
     void unhandled_exception() { ex = std::current_exception(); }
   };
@@ -98,7 +101,9 @@ static const bool cfn_lazy[NCF] = {false, true, true, false, true};
 static const int cfn_arity[NCF] = {1, 1, 0, 1, 1};
 
 using EP = std::unique_ptr<trompeloeil::expectation>;
-struct Inst { int id = 0; int v[2] = {0, 0}; std::size_t lo = 1, hi = 1; trompeloeil::sequence* s0 = nullptr; };
+struct Inst { int id = 0; int v[2] = {0, 0}; std::size_t lo = 1, hi = 1; trompeloeil::sequence* s0 = nullptr; std::string tag; };
+// a plain clause looks at its captured copy of a class-type local: every call handled by the expectation must find it intact
+static int vtag(const std::string& tag, int id, int v) { return tag == "tag" + std::to_string(id) ? v : -999; }
 
 // ---------------- clause hooks ----------------
 struct Ev { char kind; int inst; int k; long val; };
@@ -119,15 +124,15 @@ struct CShape { int fn; int nyield; int ret; int nse; long L, H; bool seq; bool 
 static unsigned cshape_line[64];
 SHAPE_BEGIN(0) NAMED_REQUIRE_CALL(m, ce(trompeloeil::_)).CO_RETURN(cret(x.id, x.v[1])) SHAPE_END
 SHAPE_BEGIN(1) NAMED_REQUIRE_CALL(m, ce(x.v[0])).SIDE_EFFECT(se(x.id, 0)).CO_YIELD(cy(x.id, 0, x.v[1])).CO_RETURN(cret(x.id, x.v[1] + 10)) SHAPE_END
-SHAPE_BEGIN(2) NAMED_ALLOW_CALL(m, ce(trompeloeil::_)).CO_YIELD(cy(x.id, 0, x.v[1])).CO_YIELD(cy(x.id, 1, x.v[1] + 1)).CO_YIELD(cy(x.id, 2, x.v[1] + 2)).CO_RETURN(cret(x.id, x.v[1] + 10)) SHAPE_END
-SHAPE_BEGIN(3) NAMED_REQUIRE_CALL(m, ce(trompeloeil::_)).TIMES(1, 3).CO_THROW(cthr(x.id)) SHAPE_END
+SHAPE_BEGIN(2) NAMED_ALLOW_CALL(m, ce(trompeloeil::_)).CO_YIELD(cy(x.id, 0, x.v[1])).CO_YIELD(cy(x.id, 1, x.v[1] + 1)).CO_YIELD(cy(x.id, 2, x.v[1] + 2)).CO_RETURN(cret(x.id, vtag(x.tag, x.id, x.v[1] + 10))) SHAPE_END
+SHAPE_BEGIN(3) NAMED_REQUIRE_CALL(m, ce(trompeloeil::_)).TIMES(1, 3).CO_THROW(cthr(vtag(x.tag, x.id, x.id))) SHAPE_END
 SHAPE_BEGIN(4) NAMED_REQUIRE_CALL(m, ce(x.v[0])).TIMES(2).CO_YIELD(cy(x.id, 0, x.v[1])).CO_THROW(cthr(x.id)) SHAPE_END
 SHAPE_BEGIN(5) NAMED_REQUIRE_CALL(m, cl(trompeloeil::_)).CO_RETURN(cret(x.id, x.v[1])) SHAPE_END
 SHAPE_BEGIN(6) NAMED_REQUIRE_CALL(m, cl(x.v[0])).RT_TIMES(x.lo, x.hi).SIDE_EFFECT(se(x.id, 0)).SIDE_EFFECT(se(x.id, 1)).CO_YIELD(cy(x.id, 0, x.v[1])).CO_YIELD(cy(x.id, 1, x.v[1] + 1)).CO_RETURN(cret(x.id, x.v[1] + 10)) SHAPE_END
-SHAPE_BEGIN(7) NAMED_ALLOW_CALL(m, cl(trompeloeil::_)).CO_YIELD(cy(x.id, 0, x.v[1])).CO_YIELD(cy(x.id, 1, x.v[1] + 1)).CO_YIELD(cy(x.id, 2, x.v[1] + 2)).CO_YIELD(cy(x.id, 3, x.v[1] + 3)).CO_RETURN(cret(x.id, x.v[1] + 10)) SHAPE_END
-SHAPE_BEGIN(8) NAMED_REQUIRE_CALL(m, cl(trompeloeil::_)).TIMES(1, 2).CO_THROW(cthr(x.id)) SHAPE_END
+SHAPE_BEGIN(7) NAMED_ALLOW_CALL(m, cl(trompeloeil::_)).CO_YIELD(cy(x.id, 0, x.v[1])).CO_YIELD(cy(x.id, 1, x.v[1] + 1)).CO_YIELD(cy(x.id, 2, vtag(x.tag, x.id, x.v[1] + 2))).CO_YIELD(cy(x.id, 3, x.v[1] + 3)).CO_RETURN(cret(x.id, vtag(x.tag, x.id, x.v[1] + 10))) SHAPE_END
+SHAPE_BEGIN(8) NAMED_REQUIRE_CALL(m, cl(trompeloeil::_)).TIMES(1, 2).CO_THROW(cthr(vtag(x.tag, x.id, x.id))) SHAPE_END
 SHAPE_BEGIN(9) NAMED_REQUIRE_CALL(m, cl0()).CO_RETURN(cret(x.id, x.v[1])) SHAPE_END
-SHAPE_BEGIN(10) NAMED_ALLOW_CALL(m, cl0()).SIDE_EFFECT(se(x.id, 0)).CO_YIELD(cy(x.id, 0, x.v[1])).CO_YIELD(cy(x.id, 1, x.v[1] + 1)).CO_RETURN(cret(x.id, x.v[1] + 10)) SHAPE_END
+SHAPE_BEGIN(10) NAMED_ALLOW_CALL(m, cl0()).SIDE_EFFECT(se(x.id, 0)).CO_YIELD(cy(x.id, 0, x.v[1])).CO_YIELD(cy(x.id, 1, x.v[1] + 1)).CO_RETURN(cret(x.id, vtag(x.tag, x.id, x.v[1] + 10))) SHAPE_END
 SHAPE_BEGIN(11) NAMED_REQUIRE_CALL(m, cl0()).TIMES(2).CO_YIELD(cy(x.id, 0, x.v[1])).CO_THROW(cthr(x.id)) SHAPE_END
 SHAPE_BEGIN(12) NAMED_REQUIRE_CALL(m, cv(trompeloeil::_)).CO_RETURN() SHAPE_END
 SHAPE_BEGIN(13) NAMED_REQUIRE_CALL(m, cv(x.v[0])).TIMES(1, 2).SIDE_EFFECT(se(x.id, 0)).CO_THROW(cthr(x.id)) SHAPE_END
@@ -279,7 +284,7 @@ class ExecC {
     M.exps.push_back(e);
     if (d.seq) M.seq.push_back(e.id);
     M.active[d.fn].insert(M.active[d.fn].begin(), e.id);
-    std::unique_ptr<Inst> x(new Inst); x->id = e.id; x->v[0] = e.v[0]; x->v[1] = e.v[1]; x->lo = static_cast<size_t>(lo); x->hi = static_cast<size_t>(hi); x->s0 = seq.get();
+    std::unique_ptr<Inst> x(new Inst); x->id = e.id; x->v[0] = e.v[0]; x->v[1] = e.v[1]; x->lo = static_cast<size_t>(lo); x->hi = static_cast<size_t>(hi); x->s0 = seq.get(); x->tag = "tag" + std::to_string(e.id);
     insts.resize(M.exps.size()); eps.resize(M.exps.size());
     eps[static_cast<size_t>(e.id)] = d.make(*mock, *x);
     insts[static_cast<size_t>(e.id)] = std::move(x);
